@@ -66,23 +66,19 @@ impl SortingInference<'_> {
             .collect::<HashMap<_, _>>();
 
         // a map of column -> alias
-        let column_aliases = self
-            .ctx
-            .anchor
-            .column_decls
-            .values()
-            .filter_map(|col| {
-                if let ColumnDecl::Compute(compute) = col {
-                    if let ExprKind::ColumnRef(referenced_id) = compute.expr.kind {
-                        Some((referenced_id, compute.id))
-                    } else {
-                        None
-                    }
-                } else {
-                    None
+        // (a column may have several aliases; `column_decls` is a hash map, so pick the
+        // first declared one to not depend on the iteration order)
+        let mut column_aliases: HashMap<CId, CId> = HashMap::new();
+        for col in self.ctx.anchor.column_decls.values() {
+            if let ColumnDecl::Compute(compute) = col {
+                if let ExprKind::ColumnRef(referenced_id) = compute.expr.kind {
+                    column_aliases
+                        .entry(referenced_id)
+                        .and_modify(|alias| *alias = (*alias).min(compute.id))
+                        .or_insert(compute.id);
                 }
-            })
-            .collect::<HashMap<_, _>>();
+            }
+        }
         log::debug!(".. column aliases: {column_aliases:?}");
 
         // column -> list of tables that did a revert
